@@ -460,6 +460,10 @@ fn records(section: &str, tier: Tier) -> Vec<String> {
                     "x,900",
                     "100,NaN",
                     "100",
+                    // fractional times: the end is the written number itself, not start + (end - start)
+                    "0.3,0.9",
+                    "1234.56,7890.12",
+                    "0.9,0.3",
                     "0,ab",
                     "0,\"\"",
                     "0,\"bg.jpg\" // c",
